@@ -371,6 +371,45 @@ pub fn dig_slice<T: Val>(s: &[T], h: &mut Fnv) {
     }
 }
 
+/// an iterator that is not fused: every `gap + 1`-th poll answers `None` (gap 0: never), the
+/// items come in order on the other polls
+pub struct Gappy<T> {
+    items: std::collections::VecDeque<T>,
+    gap: usize,
+    polls: usize,
+}
+impl<T> Gappy<T> {
+    pub fn new(v: Vec<T>, gap: usize) -> Self {
+        Gappy { items: v.into(), gap, polls: 0 }
+    }
+    /// what has not been handed out yet
+    pub fn rest(self) -> Vec<T> {
+        self.items.into()
+    }
+}
+impl<T> Iterator for Gappy<T> {
+    type Item = T;
+    fn next(&mut self) -> Option<T> {
+        self.polls += 1;
+        if self.gap > 0 && self.polls % (self.gap + 1) == 0 {
+            return None;
+        }
+        self.items.pop_front()
+    }
+}
+
+/// references that are not borrowed from the implementor (`&'static` returns)
+pub fn static_str(h: u64) -> &'static str {
+    ["", "static", "\u{17e}lu\u{165}", "a\0b", "0123456789abcdef0123456789abcdef!"][(h % 5) as usize]
+}
+pub fn static_bytes(h: u64) -> &'static [u8] {
+    [&b""[..], &b"\0"[..], &[0xff, 0xfe, 0x00, 0x80][..], &b"static bytes"[..]][(h % 4) as usize]
+}
+pub fn static_words(h: u64) -> &'static [u64] {
+    static W: [u64; 5] = [0, u64::MAX, 1 << 63, 7, 0x0123_4567_89ab_cdef];
+    [&W[..0], &W[..1], &W[1..], &W[..]][(h % 4) as usize]
+}
+
 pub fn gen<T: Val>(seed: u64) -> T {
     T::gen(&mut Gen::new(seed))
 }
@@ -920,10 +959,15 @@ where
 }
 
 /// C13: the vtable entry of a method marked to use integer results returns the integer code.
-pub fn int_entry_check<F>(_entry: &F, name: &str) -> Result<(), Fail> {
+pub fn int_entry_check<F>(_entry: &F, name: &str, has_payload: bool) -> Result<(), Fail> {
     let ty = std::any::type_name::<F>();
     if !ty.ends_with("-> i32") {
         return Err(Fail::new("C13:entry-not-integer-coded", format!("method {name} is marked to use integer results, but its vtable entry is `{ty}`")));
+    }
+    // the success value travels through a trailing `&mut MaybeUninit<T>` parameter
+    let args = &ty[..ty.len() - "-> i32".len()];
+    if has_payload && !args.trim_end().trim_end_matches(')').contains("MaybeUninit<") {
+        return Err(Fail::new("C13:entry-without-output-slot", format!("method {name} returns a success value as an integer-coded result, but the vtable entry obtained by name has no output slot: `{ty}`")));
     }
     Ok(())
 }
